@@ -141,6 +141,16 @@ Proof.
     + simpl in H2. inversion H2; subst. rewrite under_app in Hqp. discriminate.
 Qed.
 
+Lemma under_cmp a b e : under a e = true -> under b e = true -> a = b \/ under a b = true \/ under b a = true.
+Proof.
+  intros Ha Hb. apply under_spec in Ha as [r1 ->]. apply under_spec in Hb as [r2 E].
+  apply app_eq_app in E as [l [[H1 H2]|[H1 H2]]].
+  - destruct l as [|c l]; [left; now rewrite app_nil_r in H1|]. simpl in H2. inversion H2; subst.
+    right. right. apply under_app.
+  - destruct l as [|c l]; [left; now rewrite app_nil_r in H1|]. simpl in H2. inversion H2; subst.
+    right. left. apply under_app.
+Qed.
+
 Lemma app_sep_inj {A} (a b r1 r2 : list A) : length a = length b -> a ++ r1 = b ++ r2 -> a = b /\ r1 = r2.
 Proof.
   revert b; induction a as [|x a IH]; intros [|y b] Hl H; simpl in *; try discriminate.
@@ -214,12 +224,13 @@ Definition isdir_in (p : bytes) (t : fs) : Prop := exists e, In e t /\ f_path e 
 Record wf_fs (w : world) : Prop := {
   wf_paths : NoDup (map f_path (w_fs w));
   wf_inos : NoDup (map f_ino (w_fs w));
-  wf_fresh : forall e, In e (w_fs w) -> (f_ino e < w_next_ino w)%N;
+  wf_fresh : forall e, In e (w_fs w) -> (0 < f_ino e < w_next_ino w)%N;
   wf_np : forall e, In e (w_fs w) -> npath (f_path e);
   (* parent-closed: an entry lying below another entry has its parent directory in the file system;
      the remaining entries are the top entries *)
   wf_parent : forall e d, In e (w_fs w) -> In d (w_fs w) -> under (f_path d) (f_path e) = true ->
-              isdir_in (dirname (f_path e)) (w_fs w)
+              isdir_in (dirname (f_path e)) (w_fs w);
+  wf_next : (0 < w_next_ino w)%N          (* inode 0 is "no such entry" (ino_of) *)
 }.
 
 Lemma flookup_some p t e : flookup p t = Some e -> In e t /\ f_path e = p.
@@ -373,8 +384,8 @@ Lemma wf_add w p isd : wf_fs w -> npath p -> fisdir (dirname p) (w_fs w) = true 
   wf_fs {| w_fs := w_fs w ++ [{| f_path := p; f_ino := w_next_ino w; f_dir := isd |}];
            w_next_ino := w_next_ino w + 1 |}.
 Proof.
-  intros W Hp Hd Hx. apply fisdir_in in Hd. apply fexists_false in Hx.
-  constructor; simpl.
+  intros W Hp Hd Hx. apply fisdir_in in Hd. apply fexists_false in Hx. assert (Hn := wf_next w W).
+  constructor; simpl; [| | | | |lia].
   - rewrite map_app. simpl. apply NoDup_snoc; [apply W | exact Hx].
   - rewrite map_app. simpl. apply NoDup_snoc; [apply W|].
     intros Hin. apply in_map_iff in Hin as (e & Ee & He). apply (wf_fresh w W) in He. lia.
@@ -394,7 +405,7 @@ Lemma wf_remove w p : wf_fs w ->
   (forall e, In e (w_fs w) -> dirname (f_path e) = p -> f_path e <> p -> isdir_in p (w_fs w) -> False) ->
   wf_fs {| w_fs := fremove p (w_fs w); w_next_ino := w_next_ino w |}.
 Proof.
-  intros W Hc. unfold fremove. constructor; simpl.
+  intros W Hc. unfold fremove. constructor; simpl; [| | | | |apply W].
   - apply NoDup_map_filter, W.
   - apply NoDup_map_filter, W.
   - intros e He. apply filter_In in He as [He _]. now apply (wf_fresh w W).
@@ -475,7 +486,7 @@ Proof.
     - intros E. rewrite Edq in E. rewrite <- E in Hpq. rewrite under_dirname in Hpq by assumption. discriminate.
     - destruct (under p (f_path dq)) eqn:E; [|reflexivity].
       rewrite Edq in E. rewrite (under_trans _ _ _ E (under_dirname _ Nq)) in Hpq. discriminate. }
-  rewrite frename_map. constructor; simpl.
+  rewrite frename_map. constructor; simpl; [| | | | |apply W].
   - rewrite map_map. rewrite (map_ext _ (fun e => rk p q (f_path e))) by apply ren_path.
     rewrite <- map_map. apply NoDup_map_in; [|apply W].
     intros a b Ha Hb E.
@@ -1019,6 +1030,118 @@ Section Cover.
       rewrite <- app_assoc. split; [reflexivity | cbn; lia].
   Qed.
 
+  (* ---- raw events that do not announce the end of the watched root (IN_IGNORED / IN_DELETE_SELF with the root's path) *)
+  Definition good_mask (m : N) : Prop := is_ignored m = false /\ is_delete_self m = false.
+  Definition rsafe (e : raw) : Prop :=
+    (is_ignored (r_mask e) || is_delete_self (r_mask e)) = true -> beqb (r_path e) root = false.
+
+  Lemma good_rsafe e : good_mask (r_mask e) -> rsafe e.
+  Proof. intros [H1 H2] H. rewrite H1, H2 in H. discriminate. Qed.
+
+  Lemma read_batch_inert' t r k l : Forall (inert_ev r) l -> forall acc,
+    exists evs, read_batch C t (r, k, acc) l = Done (r, k, acc ++ evs) /\
+      Forall2 (fun e ev => exists wp, alookup N.eqb (k_wd e) (pfw r) = Some wp /\ ev = raw_ev wp e) l evs.
+  Proof.
+    induction 1 as [|e l (Hi & wp & Hp) Hl IH]; intros acc.
+    - exists []. rewrite app_nil_r. split; [reflexivity | constructor].
+    - cbn [read_batch]. rewrite (read_one_inert _ _ _ _ _ wp Hi Hp).
+      destruct (IH (acc ++ [raw_ev wp e])) as (evs & -> & HF). exists (raw_ev wp e :: evs).
+      rewrite <- app_assoc. split; [reflexivity|]. constructor; [eauto | exact HF].
+  Qed.
+
+  Definition sim_mask (e : raw) : Prop := r_mask e = IN_CREATE \/ r_mask e = N.lor IN_CREATE IN_ISDIR.
+
+  Lemma sim_dirs_app t rt ds : forall r0 k0 acc, exists sim,
+    snd (sim_dirs C r0 k0 t rt ds acc) = acc ++ sim /\ Forall sim_mask sim.
+  Proof.
+    induction ds as [|d ds IH]; intros r0 k0 acc; cbn [sim_dirs].
+    - exists []. now rewrite app_nil_r.
+    - destruct (add_watch C r0 k0 t (join rt d)) as [[[r1 k1] wd]|].
+      + destruct (IH r1 k1 (acc ++ [{| r_wd := wd; r_mask := N.lor IN_CREATE IN_ISDIR; r_cookie := 0; r_name := d; r_path := join rt d |}]))
+          as (sim & E & Hs). eexists. rewrite E, <- app_assoc. split; [reflexivity|]. constructor; [now right | exact Hs].
+      + apply IH.
+  Qed.
+
+  Lemma sim_files_app r rt fls : forall acc acc', sim_files C r rt fls acc = Done acc' ->
+    exists sim, acc' = acc ++ sim /\ Forall sim_mask sim.
+  Proof.
+    induction fls as [|f fls IH]; intros acc acc' H; cbn [sim_files] in H.
+    - injection H as <-. exists []. now rewrite app_nil_r.
+    - destruct (alookup beqb (dirname (join rt f)) (wfp r)) as [wd|].
+      + destruct (IH _ _ H) as (sim & -> & Hs). eexists. rewrite <- app_assoc. split; [reflexivity|].
+        constructor; [now left | exact Hs].
+      + destruct (c_fix_simulate C); [now apply IH | discriminate].
+  Qed.
+
+  Lemma simulate_app t wk : forall r k acc r' k' acc', simulate C r k t wk acc = Done (r', k', acc') ->
+    exists sim, acc' = acc ++ sim /\ Forall sim_mask sim.
+  Proof.
+    induction wk as [|[[rt ds] fls] wk IH]; intros r k acc r' k' acc' H; cbn [simulate] in H.
+    - injection H as <- <- <-. exists []. now rewrite app_nil_r.
+    - destruct (sim_dirs_app t rt ds r k acc) as (s1 & E1 & H1).
+      destruct (sim_dirs C r k t rt ds acc) as [[r1 k1] acc1]. cbn [snd] in E1. subst acc1.
+      destruct (sim_files C r1 rt fls (acc ++ s1)) as [acc2|] eqn:E2; [|discriminate].
+      destruct (sim_files_app _ _ _ _ _ E2) as (s2 & -> & H2).
+      destruct (IH _ _ _ _ _ _ H) as (s3 & -> & H3). exists (s1 ++ s2 ++ s3). rewrite <- !app_assoc.
+      split; [reflexivity|]. apply Forall_app. split; [exact H1|]. apply Forall_app. now split.
+  Qed.
+
+  Lemma sim_mask_rsafe e : sim_mask e -> rsafe e.
+  Proof. intros [H|H]; apply good_rsafe; rewrite H; split; reflexivity. Qed.
+
+  (* one event: the output grows by the event itself (same mask) and simulated creations *)
+  Lemma read_one_shape t r k acc e r' k' acc' : read_one C t (r, k, acc) e = Done (r', k', acc') ->
+    exists ev sim, acc' = acc ++ ev :: sim /\ r_mask ev = k_mask e /\ Forall sim_mask sim.
+  Proof.
+    unfold read_one. destruct (alookup N.eqb (k_wd e) (pfw r)) as [wp|]; [|discriminate].
+    set (X := if is_moved_from (k_mask e) then _ else _).
+    assert (HX : r_mask (snd X) = k_mask e).
+    { unfold X. destruct (is_moved_from (k_mask e)); [reflexivity|]. destruct (is_moved_to (k_mask e)); [|reflexivity].
+      destruct (alookup N.eqb (k_cookie e) (mvf r)) as [ms|].
+      - destruct (alookup beqb ms (wfp r)); [reflexivity|].
+        destruct (c_fix_movein C && c_recursive C && is_directory (k_mask e) && fisdir _ t); [|reflexivity].
+        now destruct (add_dirs C r k t _).
+      - destruct (c_fix_movein C && c_recursive C && is_directory (k_mask e) && fisdir _ t); [|reflexivity].
+        now destruct (add_dirs C r k t _). }
+    destruct X as [[r1 k1] ev1]. cbn [snd] in HX.
+    set (Y := if is_ignored (k_mask e) then _ else _). destruct Y as [r2|]; [|discriminate].
+    destruct (c_recursive C && is_directory (k_mask e) && is_create (k_mask e)).
+    - destruct (add_watch C r2 k1 t (r_path ev1)) as [[[r3 k3] wd]|].
+      + intros H. destruct (simulate_app _ _ _ _ _ _ _ _ H) as (sim & -> & Hs).
+        exists ev1, sim. rewrite <- app_assoc. auto.
+      + intros H. injection H as <- <- <-. exists ev1, []. repeat split; auto.
+    - intros H. injection H as <- <- <-. exists ev1, []. repeat split; auto.
+  Qed.
+
+  Lemma read_batch_good t b : Forall (fun e => good_mask (k_mask e)) b ->
+    forall r k acc r' k' acc', Forall rsafe acc -> read_batch C t (r, k, acc) b = Done (r', k', acc') -> Forall rsafe acc'.
+  Proof.
+    induction 1 as [|e b He Hb IH]; intros r k acc r' k' acc' Ha H; cbn [read_batch] in H.
+    - now injection H as <- <- <-.
+    - destruct (read_one C t (r, k, acc) e) as [[[r1 k1] acc1]|] eqn:E1; [|discriminate].
+      destruct (read_one_shape _ _ _ _ _ _ _ _ E1) as (ev & sim & -> & Hm & Hs).
+      apply (IH _ _ _ _ _ _ ) in H; [exact H|]. apply Forall_app. split; [exact Ha|].
+      constructor; [apply good_rsafe; now rewrite Hm|]. eapply Forall_impl; [|exact Hs]. apply sim_mask_rsafe.
+  Qed.
+
+  Lemma inert_raws_good r l evs :
+    Forall2 (fun e ev => exists wp, alookup N.eqb (k_wd e) (pfw r) = Some wp /\ ev = raw_ev wp e) l evs ->
+    Forall (fun e => good_mask (k_mask e)) l -> Forall rsafe evs.
+  Proof.
+    induction 1 as [|e ev l evs (wp & _ & ->) HF IH]; intros Hg; [constructor|]. inversion Hg; subst.
+    constructor; [now apply good_rsafe | auto].
+  Qed.
+
+  Lemma inert_raws_path r l evs wd p :
+    Forall2 (fun e ev => exists wp, alookup N.eqb (k_wd e) (pfw r) = Some wp /\ ev = raw_ev wp e) l evs ->
+    Forall (fun e => k_wd e = wd /\ k_name e = []) l -> alookup N.eqb wd (pfw r) = Some p -> p <> root -> Forall rsafe evs.
+  Proof.
+    intros HF Hl Hp Hne. induction HF as [|e ev l evs (wp & Hwp & ->) HF IH]; [constructor|]. inversion Hl as [|? ? [E1 E2] Hl']; subst.
+    constructor; [|auto]. intros _. unfold raw_ev, src_path_of. cbn [r_path]. rewrite E2.
+    rewrite Hp in Hwp. injection Hwp as <-. now apply beqb_neq.
+  Qed.
+
+
   (* ------------------------------------------------------------------ the kernel side *)
   Definition kset_queue (k : kst) (q : list kraw) : kst :=
     {| k_watches := k_watches k; k_next_wd := k_next_wd k; k_queue := q; k_next_cookie := k_next_cookie k |}.
@@ -1098,6 +1221,42 @@ Section Cover.
     - intros kw Hk. destruct (wi_exact _ _ _ I kw Hk) as (e & He & De & Se & Ie & R). exists e.
       split; [apply Ht; eauto | auto].
     - intros c x Hx. apply (wi_mvf _ _ _ I) in Hx. lia.
+  Qed.
+
+  (* the kernel: no IN_IGNORED / IN_DELETE_SELF unless a watched directory disappears *)
+  Lemma kernel_good k t o : Forall (fun e => good_mask (k_mask e)) (k_queue k) ->
+    match o with
+    | Rmdir p => watch_of_ino k (ino_of t p) = None
+    | Rename p q => fisdir q t = false \/ watch_of_ino k (ino_of t q) = None
+    | _ => True
+    end -> Forall (fun e => good_mask (k_mask e)) (k_queue (kernel_op k t o)).
+  Proof.
+    intros Hq Hno.
+    assert (G : forall (k0 : kst) ino bit (isd : bool) c name, Forall (fun e => good_mask (k_mask e)) (k_queue k0) ->
+              good_mask (if isd then N.lor bit IN_ISDIR else bit) ->
+              Forall (fun e => good_mask (k_mask e)) (k_queue (knotify k0 ino bit isd c name))).
+    { intros k0 ino bit isd c name H0 Hg. apply (knotify_inv (fun e => good_mask (k_mask e))); [exact H0|]. intros kw _. exact Hg. }
+    destruct o as [p|p|p|p|p|p|p q]; cbn [kernel_op].
+    - repeat apply G; try assumption; split; reflexivity.
+    - repeat apply G; try assumption; split; reflexivity.
+    - destruct (fisdir p t); repeat apply G; try assumption; split; reflexivity.
+    - apply G; [assumption | split; reflexivity].
+    - apply G; [assumption | split; reflexivity].
+    - unfold kgone. rewrite Hno. apply G; [assumption | split; reflexivity].
+    - set (k2 := knotify (knotify _ _ _ _ _ _) _ _ _ _ _).
+      assert (H2 : Forall (fun e => good_mask (k_mask e)) (k_queue k2)).
+      { unfold k2. apply G; [apply G; [exact Hq|]|]; destruct (fisdir p t); split; reflexivity. }
+      destruct Hno as [-> | Hno]; [exact H2|]. destruct (fisdir q t); [|exact H2].
+      unfold kgone. assert (E : watch_of_ino k2 (ino_of t q) = watch_of_ino k (ino_of t q)).
+      { apply watch_of_ino_ext. unfold k2.
+        destruct (knotify_inv (fun _ => True) (knotify {| k_watches := k_watches k; k_next_wd := k_next_wd k; k_queue := k_queue k;
+                     k_next_cookie := k_next_cookie k + 1 |} (ino_of t (dirname p)) IN_MOVED_FROM (fisdir p t) (k_next_cookie k) (basename p))
+                   (ino_of t (dirname q)) IN_MOVED_TO (fisdir p t) (k_next_cookie k) (basename q)) as (A & _); [apply Forall_forall; auto | auto|].
+        rewrite A.
+        destruct (knotify_inv (fun _ => True) {| k_watches := k_watches k; k_next_wd := k_next_wd k; k_queue := k_queue k;
+                     k_next_cookie := k_next_cookie k + 1 |} (ino_of t (dirname p)) IN_MOVED_FROM (fisdir p t) (k_next_cookie k) (basename p))
+          as (B & _); [apply Forall_forall; auto | auto|]. now rewrite B. }
+      now rewrite E, Hno.
   Qed.
 
   Lemma WInv_ext t t' k k' r : WInv t k r ->
@@ -1450,7 +1609,8 @@ Section Cover.
 
   Theorem step_rmdir w k r p w' : RSync w k r -> npath p -> p <> root -> apply_op w (Rmdir p) = Some w' ->
     let k1 := kernel_op k (w_fs w) (Rmdir p) in
-    exists r' k' evs, read_batch C (w_fs w') (r, drainq k1, []) (k_queue k1) = Done (r', k', evs) /\ RSync w' k' r'.
+    exists r' k' evs, read_batch C (w_fs w') (r, drainq k1, []) (k_queue k1) = Done (r', k', evs) /\ RSync w' k' r' /\
+      Forall rsafe evs.
   Proof.
     intros S Np Hpr Ha k1. destruct S as [W Hr I Cv Hq].
     assert (W' : wf_fs w') by exact (wf_apply_op w (Rmdir p) w' W Np Ha).
@@ -1480,25 +1640,32 @@ Section Cover.
                  k_watches (knotify k3 di IN_DELETE true 0 n) = k_watches k3 /\
                  k_next_wd (knotify k3 di IN_DELETE true 0 n) = k_next_wd k /\
                  k_next_cookie (knotify k3 di IN_DELETE true 0 n) = k_next_cookie k /\
-                 Forall (inert_ev (dropped r p (kw_wd kw))) post).
+                 Forall (inert_ev (dropped r p (kw_wd kw))) post /\ Forall (fun e => good_mask (k_mask e)) post).
       { destruct (knotify_cases k3 di IN_DELETE true 0 n) as [->|(kw' & Hw' & _ & ->)].
-        - exists []. now repeat split.
+        - exists []. repeat split; constructor.
         - exists [kev kw' IN_DELETE true 0 n]. cbn [kset_queue k_queue k_watches k_next_wd k_next_cookie k3].
-          rewrite kpush_snoc by (vm_compute; discriminate). repeat split.
+          rewrite kpush_snoc by (vm_compute; discriminate). repeat split; [|constructor; [split; reflexivity | constructor]].
           constructor; [|constructor]. split; [inert_mask|]. cbn [kev k_wd dropped pfw].
           apply watch_of_ino_some in Hw' as [Hk' _]. cbn [k3 k_watches] in Hk'.
           apply filter_In in Hk' as [Hk' Hne]. apply negb_true_iff, N.eqb_neq in Hne.
           rewrite prem_neq by assumption. destruct (wi_exact _ _ _ I kw' Hk') as (e & _ & _ & _ & _ & Pe & _). eauto. }
-      destruct Hpost as (post & Eq & Ew3 & En3 & Ec3 & Hpost). rewrite Eq.
+      destruct Hpost as (post & Eq & Ew3 & En3 & Ec3 & Hpost & Hpostg). rewrite Eq.
       rewrite read_batch_app.
-      destruct (read_batch_inert (fremove p (w_fs w)) r (drainq (knotify k3 di IN_DELETE true 0 n)) pre Hpre_inert [])
-        as (evs1 & -> & _).
+      destruct (read_batch_inert' (fremove p (w_fs w)) r (drainq (knotify k3 di IN_DELETE true 0 n)) pre Hpre_inert [])
+        as (evs1 & -> & HF1).
       cbn [app read_batch]. unfold ign_ev. rewrite (read_one_ignored _ _ _ _ _ p Cp Cf).
       fold (dropped r p (kw_wd kw)).
-      destruct (read_batch_inert (fremove p (w_fs w)) _ (drainq (knotify k3 di IN_DELETE true 0 n)) post Hpost
+      destruct (read_batch_inert' (fremove p (w_fs w)) _ (drainq (knotify k3 di IN_DELETE true 0 n)) post Hpost
                   (evs1 ++ [{| r_wd := kw_wd kw; r_mask := IN_IGNORED; r_cookie := 0; r_name := []; r_path := p |}]))
-        as (evs2 & -> & _).
+        as (evs2 & -> & HF2).
       eexists _, _, _. split; [reflexivity|].
+      assert (Hsafe : Forall rsafe (([] ++ evs1 ++ [{| r_wd := kw_wd kw; r_mask := IN_IGNORED; r_cookie := 0; r_name := []; r_path := p |}]) ++ evs2)).
+      { cbn [app]. apply Forall_app. split; [apply Forall_app; split|].
+        - apply (inert_raws_path r pre evs1 (kw_wd kw) p HF1); try assumption.
+          eapply Forall_impl; [|exact Hpre]. intros a (A1 & A2 & _). now split.
+        - constructor; [|constructor]. intros _. cbn [r_path]. now apply beqb_neq.
+        - now apply (inert_raws_good _ post evs2 HF2). }
+      split; [|exact Hsafe].
       destruct (dropped_sync w (fremove p (w_fs w)) k r ep kw (drainq (knotify k3 di IN_DELETE true 0 n)) W I Cv Hep)
         as [I' Cv']; try assumption.
       + unfold cov. rewrite Eep. now split.
@@ -1507,8 +1674,11 @@ Section Cover.
     - cbn [kgone]. unfold kgone. rewrite Ew.
       destruct (knotify_inert (w_fs w) k r k di IN_DELETE true 0 n I eq_refl) as (A1 & B1 & C1 & D1);
         [rewrite Hq; constructor | inert_mask|].
-      destruct (read_batch_inert (fremove p (w_fs w)) r (drainq (knotify k di IN_DELETE true 0 n)) _ D1 []) as (evs & -> & _).
-      eexists _, _, _. split; [reflexivity|]. constructor; try assumption; try reflexivity.
+      destruct (read_batch_inert' (fremove p (w_fs w)) r (drainq (knotify k di IN_DELETE true 0 n)) _ D1 []) as (evs & -> & HF).
+      eexists _, _, _. split; [reflexivity|]. split.
+      2:{ cbn [app]. apply (inert_raws_good r _ evs HF).
+          apply (knotify_inv (fun e => good_mask (k_mask e))); [rewrite Hq; constructor | intros; split; reflexivity]. }
+      constructor; try assumption; try reflexivity.
       + apply (WInv_ext' (w_fs w) _ k); try assumption; cbn; try assumption; [|rewrite C1; lia].
         intros e He De (kw & Hk & Ei). apply Ht2; try assumption. intros ->.
         rewrite (watch_of_ino_in k (f_ino ep) kw) in Ew; [discriminate | apply I | assumption | assumption].
@@ -1892,19 +2062,27 @@ Section Cover.
     - reflexivity.
   Qed.
 
-  Lemma RSync_same w w' k k' r r' : wf_fs w' -> RSync w k r ->
-    (forall e, f_dir e = true -> In e (w_fs w) <-> In e (w_fs w')) ->
+  Lemma RSync_same' w w' k k' r r' : wf_fs w' -> RSync w k r ->
+    (forall e, f_dir e = true -> scope (f_path e) -> In e (w_fs w) <-> In e (w_fs w')) ->
     k_watches k' = k_watches k -> k_next_wd k' = k_next_wd k -> k_queue k' = [] ->
     wfp r' = wfp r -> pfw r' = pfw r -> (forall c x, alookup N.eqb c (mvf r') = Some x -> (c < k_next_cookie k')%N) ->
     RSync w' k' r'.
   Proof.
     intros W' [W Hr I Cv Hq] Hfs Hw Hn Hq' Hwf Hpf Hmv. constructor; try assumption.
-    - destruct Hr as (e & He & Ee & De). exists e. split; [now apply Hfs | auto].
+    - destruct Hr as (e & He & Ee & De). exists e. split; [|auto]. apply Hfs; try assumption.
+      rewrite Ee. unfold scope. destruct (c_recursive C); auto.
     - constructor; rewrite ?Hw, ?Hn, ?Hwf, ?Hpf; try apply I; [|exact Hmv].
-      intros kw Hk. destruct (wi_exact _ _ _ I kw Hk) as (e & He & De & R). exists e. split; [now apply Hfs | auto].
-    - intros e He De Se. destruct (Cv e (proj2 (Hfs e De) He) De Se) as (kw & C1 & C2 & C3). exists kw.
+      intros kw Hk. destruct (wi_exact _ _ _ I kw Hk) as (e & He & De & Se & R). exists e. split; [now apply Hfs | auto].
+    - intros e He De Se. destruct (Cv e (proj2 (Hfs e De Se) He) De Se) as (kw & C1 & C2 & C3). exists kw.
       unfold cov. rewrite Hwf, Hpf, (watch_of_ino_ext k k') by assumption. auto.
   Qed.
+
+  Lemma RSync_same w w' k k' r r' : wf_fs w' -> RSync w k r ->
+    (forall e, f_dir e = true -> In e (w_fs w) <-> In e (w_fs w')) ->
+    k_watches k' = k_watches k -> k_next_wd k' = k_next_wd k -> k_queue k' = [] ->
+    wfp r' = wfp r -> pfw r' = pfw r -> (forall c x, alookup N.eqb c (mvf r') = Some x -> (c < k_next_cookie k')%N) ->
+    RSync w' k' r'.
+  Proof. intros W' S Hfs. apply (RSync_same' w); try assumption. intros e De _. now apply Hfs. Qed.
 
   (* Rename of a file: inside, in, out, replacing a file - the watch state is untouched *)
   Theorem step_rename_file w k r p q w' ep : RSync w k r -> npath p -> npath q ->
@@ -1994,6 +2172,543 @@ Section Cover.
     - cbn [r1 mvf]. apply mvf_aset_lt; [exact 0%N | apply I].
   Qed.
 
+  (* ------------------------------------------------------------------ 2b: a directory of the tree renamed over an empty directory of the tree *)
+  (* phase 1, shared: the reader on MOVED_FROM; MOVED_TO of a directory inside the tree *)
+  Lemma rename_dir_rekey w k r p q ep t_read k0 :
+    wf_fs w -> isdir_in root (w_fs w) -> WInv (w_fs w) k r -> Cover (w_fs w) k r ->
+    npath p -> npath q -> c_recursive C = true ->
+    flookup p (w_fs w) = Some ep -> f_dir ep = true -> scope p -> p <> root -> scope q -> q <> root ->
+    p <> q -> under p q = false -> (forall e, In e (w_fs w) -> under q (f_path e) = false) ->
+    fisdir (dirname q) (w_fs w) = true ->
+    exists kwp kwq kwe r'' evs,
+      watch_of_ino k (ino_of (w_fs w) (dirname p)) = Some kwp /\
+      watch_of_ino k (ino_of (w_fs w) (dirname q)) = Some kwq /\ cov k r ep kwe /\
+      read_batch C t_read (r, k0, [])
+        [mv_from kwp true (k_next_cookie k) (basename p); mv_to kwq true (k_next_cookie k) (basename q)] = Done (r'', k0, evs) /\
+      mvf r'' = aset N.eqb (k_next_cookie k) p (mvf r) /\
+      (forall e kw, In e (w_fs w) -> f_dir e = true -> scope (f_path e) -> f_path e <> q -> cov k r e kw ->
+         alookup beqb (rk p q (f_path e)) (wfp r'') = Some (kw_wd kw) /\
+         alookup N.eqb (kw_wd kw) (pfw r'') = Some (rk p q (f_path e))) /\
+      (forall e kw, In e (w_fs w) -> cov k r e kw -> f_path e <> p -> under p (f_path e) = false ->
+         alookup N.eqb (kw_wd kw) (pfw r'') = Some (f_path e)) /\
+      (forall y wd, alookup beqb y (wfp r'') = Some wd ->
+         exists e kw, In e (w_fs w) /\ f_dir e = true /\ scope (f_path e) /\ f_path e <> q /\ cov k r e kw /\
+                      kw_wd kw = wd /\ y = rk p q (f_path e)) /\
+      Forall rsafe evs.
+  Proof.
+    intros W Hr I Cv Np Nq Hrec Elp Dep Sp Hpr Sq Hqr Hne Hupq Hbelow Edq.
+    destruct (flookup_some _ _ _ Elp) as [Hep Eep].
+    destruct (scope_parent p Np Sp Hpr) as [Sdp _]. destruct (scope_parent q Nq Sq Hqr) as [Sdq _].
+    assert (Urp : under root p = true).
+    { unfold scope in Sp. rewrite Hrec in Sp. destruct Sp as [Sp|Sp]; [contradiction | exact Sp]. }
+    destruct Hr as (er & Her & Eer & Der).
+    assert (Hdp : isdir_in (dirname p) (w_fs w)).
+    { rewrite <- Eep. apply (wf_parent w W ep er Hep Her). now rewrite Eep, Eer. }
+    destruct Hdp as (dp & Hdp & Edp & Ddp). destruct (fisdir_in _ _ Edq) as (dq & Hdq & Edq' & Ddq).
+    rewrite <- Edp in Sdp. rewrite <- Edq' in Sdq.
+    destruct (Cv dp Hdp Ddp Sdp) as (kwp & Cwp & Cpp & Cfp). destruct (Cv dq Hdq Ddq Sdq) as (kwq & Cwq & Cpq & Cfq).
+    destruct (Cv ep Hep Dep) as (kwe & Cwe & Cpe & Cfe); [now rewrite Eep|].
+    assert (Cep : cov k r ep kwe) by (split; [|split]; assumption). rewrite Eep in Cpe, Cfe.
+    assert (Ip : ino_of (w_fs w) (dirname p) = f_ino dp) by (unfold ino_of; rewrite <- Edp; now rewrite (flookup_in _ dp (wf_paths w W) Hdp)).
+    assert (Iq : ino_of (w_fs w) (dirname q) = f_ino dq) by (unfold ino_of; rewrite <- Edq'; now rewrite (flookup_in _ dq (wf_paths w W) Hdq)).
+    exists kwp, kwq, kwe. rewrite Ip, Iq.
+    set (c := k_next_cookie k).
+    destruct (npath_parts p Np) as (Ep & Gdp & Vbp & Jp). destruct (npath_parts q Nq) as (Eq & Gdq & Vbq & Jq).
+    assert (SPp : src_path_of (dirname p) (basename p) = p) by (unfold src_path_of; destruct (basename p); [discriminate Vbp | exact Jp]).
+    assert (SPq : src_path_of (dirname q) (basename q) = q) by (unfold src_path_of; destruct (basename q); [discriminate Vbq | exact Jq]).
+    cbn [read_batch].
+    rewrite (read_one_from _ _ _ _ _ (dirname p)); try (vm_compute; reflexivity); [|cbn [mv_from kev k_wd]; now rewrite Cpp, Edp].
+    cbn [mv_from kev k_cookie k_name]. rewrite SPp.
+    set (r1 := {| wfp := wfp r; pfw := pfw r; mvf := aset N.eqb c p (mvf r); calls := calls r |}).
+    rewrite (read_one_to_rekey _ r1 _ _ _ (dirname q) p (kw_wd kwe)); try (vm_compute; reflexivity);
+      [|cbn [mv_to kev k_wd r1 pfw]; now rewrite Cpq, Edq' | cbn [mv_to kev k_cookie r1 mvf]; apply pset_eq | exact Cfe].
+    cbn [mv_to kev k_name]. rewrite SPq, Hrec. cbv zeta.
+    set (mwd := kw_wd kwe).
+    set (r' := {| wfp := aset beqb q mwd (aremove beqb p (wfp r1)); pfw := aset N.eqb mwd q (pfw r1); mvf := mvf r1; calls := calls r1 |}).
+    eexists _, _. split; [exact Cwp|]. split; [exact Cwq|]. split; [exact Cep|]. split; [reflexivity|].
+    assert (B' : forall x wd, alookup beqb x (wfp r') = Some wd ->
+                (x = q /\ wd = mwd) \/ (x <> q /\ x <> p /\ alookup beqb x (wfp r) = Some wd)).
+    { intros x wd Hx. cbn [r' wfp r1] in Hx. destruct (bytes_eq_dec x q) as [->|Hxq].
+      - rewrite wset_eq in Hx. left. split; congruence.
+      - rewrite wset_neq in Hx by assumption. destruct (bytes_eq_dec x p) as [->|Hxp]; [now rewrite wrem_eq in Hx|].
+        rewrite wrem_neq in Hx by assumption. right. auto. }
+    assert (B'' : forall x wd, x <> q -> x <> p -> alookup beqb x (wfp r) = Some wd -> alookup beqb x (wfp r') = Some wd).
+    { intros x wd Hxq Hxp Hx. cbn [r' wfp r1]. rewrite wset_neq by assumption. now rewrite wrem_neq. }
+    assert (Gp := npath_gpath _ Np).
+    assert (Hsd : forall rest, under p (q ++ sep :: rest) = false).
+    { intros rest. apply under_disjoint; try assumption. rewrite <- Eep. now apply Hbelow. }
+    assert (K1 : forall x wd, alookup beqb x (wfp r') = Some wd -> under q x = false).
+    { intros x wd Hx. destruct (B' x wd Hx) as [[-> _]|(_ & _ & Hx')]; [apply under_irrefl|].
+      destruct (tight_entry w k r x wd I Hx') as (e & _ & He & _ & _ & <- & _). now apply Hbelow. }
+    assert (K2 : forall x y wd, alookup beqb x (wfp r') = Some wd -> alookup beqb y (wfp r') = Some wd -> x = y).
+    { intros x y wd Hx Hy.
+      destruct (B' x wd Hx) as [[-> Ex]|(Nxq & Nxp & Hx')]; destruct (B' y wd Hy) as [[-> Ey]|(Nyq & Nyp & Hy')]; try reflexivity.
+      - subst wd. exfalso. apply Nyp. destruct (wi_tight _ _ _ I y mwd Hy') as [_ Py]. unfold mwd in Py. congruence.
+      - subst wd. exfalso. apply Nxp. destruct (wi_tight _ _ _ I x mwd Hx') as [_ Px]. unfold mwd in Px. congruence.
+      - destruct (wi_tight _ _ _ I x wd Hx') as [_ Px]. destruct (wi_tight _ _ _ I y wd Hy') as [_ Py]. congruence. }
+    destruct (rekey_all p q (proj1 Gp) Hsd r' K1 K2) as [J T].
+    set (r'' := rekey_loop (wfp r') p q r') in *.
+    assert (Pf : forall e kw, In e (w_fs w) -> cov k r e kw -> f_path e <> p -> under p (f_path e) = false ->
+               alookup N.eqb (kw_wd kw) (pfw r'') = Some (f_path e)).
+    { intros e kw He (Cw & Cp & Cf) Nxp Eu. rewrite (j3 _ _ _ _ J).
+      - cbn [r' pfw r1]. rewrite pset_neq; [exact Cp|]. intros E. apply Nxp. unfold mwd in E. rewrite E in Cp. congruence.
+      - intros x0 Hu Hx0. destruct (B' x0 _ Hx0) as [[-> _]|(_ & _ & Hx0')]; [congruence|].
+        destruct (wi_tight _ _ _ I x0 _ Hx0') as [_ P0]. assert (x0 = f_path e) by congruence. subst x0. congruence. }
+    assert (F : forall e kw, In e (w_fs w) -> f_dir e = true -> scope (f_path e) -> f_path e <> q -> cov k r e kw ->
+                alookup beqb (rk p q (f_path e)) (wfp r'') = Some (kw_wd kw) /\
+                alookup N.eqb (kw_wd kw) (pfw r'') = Some (rk p q (f_path e))).
+    { intros e kw He De Se Hxq (Cw & Cp & Cf).
+      destruct (bytes_eq_dec (f_path e) p) as [Exp|Nxp].
+      - assert (e = ep) by (apply (path_inj (w_fs w)); [apply W| | |]; congruence). subst e.
+        assert (kw = kwe) by congruence. subst kw. rewrite Exp, rk_self. fold mwd.
+        assert (Hb : alookup beqb q (wfp r') = Some mwd) by (cbn [r' wfp]; apply wset_eq).
+        split.
+        + destruct (j2 _ _ _ _ J q mwd Hb) as [Hs|(Hu & _)]; [exact Hs | congruence].
+        + rewrite (j3 _ _ _ _ J); [cbn [r' pfw]; apply pset_eq|].
+          intros x0 Hu Hx0. assert (x0 = q) by (eapply K2; eauto). subst x0. congruence.
+      - assert (Hb : alookup beqb (f_path e) (wfp r') = Some (kw_wd kw)) by now apply B''.
+        destruct (under p (f_path e)) eqn:Eu.
+        + destruct (j2 _ _ _ _ J _ _ Hb) as [Hs|(_ & _ & Hm & Hp)]; [rewrite T in Hs by assumption; discriminate | now split].
+        + rewrite rk_other by assumption. split.
+          * destruct (j2 _ _ _ _ J _ _ Hb) as [Hs|(Hu & _)]; [exact Hs | congruence].
+          * apply Pf; try assumption. split; [|split]; assumption. }
+    split; [rewrite (j5 _ _ _ _ J); reflexivity|]. split; [exact F|]. split; [exact Pf|]. split.
+    2:{ repeat constructor; apply good_rsafe; split; reflexivity. }
+    intros y wd Hy. destruct (j1 _ _ _ _ J y wd Hy) as (x0 & H0 & Hy0).
+    destruct (B' x0 wd H0) as [[-> ->]|(Nq0 & Np0 & H0')].
+    - assert (y = q) by (destruct Hy0 as [->|[Hu _]]; [reflexivity | congruence]). subst y.
+      exists ep, kwe. rewrite Eep, rk_self.
+      split; [exact Hep|]. split; [exact Dep|]. split; [exact Sp|]. split; [exact Hne|]. split; [exact Cep|]. split; reflexivity.
+    - destruct (tight_entry w k r x0 wd I H0') as (e & kw & He & De & Se & Ee & Hk & Ewd & Ei).
+      destruct (wi_tight _ _ _ I x0 wd H0') as [_ P0].
+      assert (Ce : cov k r e kw).
+      { split; [|split]; rewrite ?Ee, ?Ewd; try assumption. apply watch_of_ino_in; [apply I | assumption | congruence]. }
+      exists e, kw. split; [exact He|]. split; [exact De|]. split; [exact Se|]. split; [congruence|]. split; [exact Ce|].
+      split; [exact Ewd|]. rewrite Ee.
+      destruct Hy0 as [->|[Hu ->]]; [|reflexivity].
+      destruct (under p x0) eqn:Eu; [rewrite T in Hy by assumption; discriminate|]. now rewrite rk_other.
+  Qed.
+
+  Lemma read_one_ignored_other t r k acc wd p w' : alookup N.eqb wd (pfw r) = Some p ->
+    alookup beqb p (wfp r) = Some w' -> w' <> wd ->
+    read_one C t (r, k, acc) {| k_wd := wd; k_mask := IN_IGNORED; k_cookie := 0; k_name := [] |} =
+    Done ({| wfp := wfp r; pfw := aremove N.eqb wd (pfw r); mvf := mvf r; calls := calls r |}, k,
+          acc ++ [{| r_wd := wd; r_mask := IN_IGNORED; r_cookie := 0; r_name := []; r_path := p |}]).
+  Proof.
+    intros Hp Hw Hne. unfold read_one. cbn [k_wd k_mask k_cookie k_name]. rewrite Hp.
+    change (is_moved_from IN_IGNORED) with false. change (is_moved_to IN_IGNORED) with false.
+    change (is_ignored IN_IGNORED) with true. change (is_directory IN_IGNORED) with false. cbv iota.
+    cbn [pfw wfp mvf calls]. rewrite Hp, Hw. apply N.eqb_neq in Hne. rewrite Hne. rewrite andb_false_r. reflexivity.
+  Qed.
+
+  Theorem step_rename_dir_over w k r p q w' ep v : RSync w k r -> npath p -> npath q -> c_recursive C = true ->
+    N.land IN_MOVED_FROM (c_mask C) <> 0%N -> N.land IN_MOVED_TO (c_mask C) <> 0%N ->
+    apply_op w (Rename p q) = Some w' ->
+    flookup p (w_fs w) = Some ep -> f_dir ep = true -> scope p -> p <> root -> scope q -> q <> root ->
+    flookup q (w_fs w) = Some v -> f_dir v = true ->
+    let k1 := kernel_op k (w_fs w) (Rename p q) in
+    exists r' k' evs, read_batch C (w_fs w') (r, drainq k1, []) (k_queue k1) = Done (r', k', evs) /\ RSync w' k' r' /\
+      Forall rsafe evs.
+  Proof.
+    intros S Np Nq Hrec Hmf Hmt Ha Elp Dep Sp Hpr Sq Hqr Elq Dv k1. destruct S as [W Hr I Cv Hq].
+    assert (W' : wf_fs w') by exact (wf_apply_op w (Rename p q) w' W (conj Np Nq) Ha).
+    destruct (rename_inv w p q w' W Np Nq Ha) as (ep' & t1 & Elp' & Hne & Hupq & Edq & -> & Hbelow & Hq1).
+    assert (ep' = ep) by congruence. subst ep'.
+    destruct Hq1 as [[E _]|(v' & Ev & -> & _)]; [congruence|]. assert (v' = v) by congruence. subst v'.
+    destruct (flookup_some _ _ _ Elp) as [Hep Eep]. destruct (flookup_some _ _ _ Elq) as [Hv Evp].
+    assert (Sv : scope (f_path v)) by now rewrite Evp.
+    destruct (Cv v Hv Dv Sv) as (kwv & Cvv). assert (Cvv' := Cvv). destruct Cvv' as (Cwv & Cpv & Cfv). rewrite Evp in Cpv, Cfv.
+    assert (Fq : fisdir q (w_fs w) = true) by (unfold fisdir; now rewrite Elq).
+    assert (Fp : fisdir p (w_fs w) = true) by (unfold fisdir; now rewrite Elp).
+    assert (Iv : ino_of (w_fs w) q = f_ino v) by (unfold ino_of; now rewrite Elq).
+    set (t' := frename p q (fremove q (w_fs w))) in *.
+    set (kf := {| k_watches := filter (fun x => negb (N.eqb (kw_wd x) (kw_wd kwv))) (k_watches k); k_next_wd := k_next_wd k;
+                  k_queue := []; k_next_cookie := k_next_cookie k + 1 |}).
+    destruct (rename_dir_rekey w k r p q ep t' kf W Hr I Cv Np Nq Hrec Elp Dep Sp Hpr Sq Hqr Hne Hupq Hbelow Edq)
+      as (kwp & kwq & kwe & r'' & evs0 & Cwp & Cwq & Cep & Hrd1 & Hmv & F & Pf & T & Hsafe0).
+    (* the kernel *)
+    subst k1. cbn [kernel_op w_fs]. rewrite Fq.
+    set (k2 := knotify (knotify _ _ _ _ _ _) _ _ _ _ _).
+    assert (Ek2 : k2 = {| k_watches := k_watches k; k_next_wd := k_next_wd k;
+              k_queue := [mv_from kwp true (k_next_cookie k) (basename p); mv_to kwq true (k_next_cookie k) (basename q)];
+              k_next_cookie := k_next_cookie k + 1 |}).
+    { unfold k2. rewrite rename_kernel; [|exact Hq|].
+      - now rewrite Cwp, Cwq, Fp.
+      - intros kw Hk. rewrite (wi_mask _ _ _ I kw Hk). now split. }
+    rewrite Iv.
+    destruct (kgone_spec k2 (f_ino v) true kwv) as (pre & -> & Hpre).
+    { rewrite (watch_of_ino_ext k k2) by (rewrite Ek2; reflexivity). exact Cwv. }
+    { rewrite Ek2. cbn [k_queue]. intros a [<-|[<-|[]]]; (split; [intros [H|H]; vm_compute in H; discriminate | vm_compute; discriminate]). }
+    rewrite Ek2. unfold drainq, kset_queue. cbn [k_watches k_next_wd k_queue k_next_cookie]. fold kf.
+    change ([mv_from kwp true (k_next_cookie k) (basename p); mv_to kwq true (k_next_cookie k) (basename q)] ++ pre ++ [ign_ev kwv])
+      with ([mv_from kwp true (k_next_cookie k) (basename p); mv_to kwq true (k_next_cookie k) (basename q)] ++ (pre ++ [ign_ev kwv])).
+    rewrite read_batch_app, Hrd1.
+    (* the events about the replaced directory *)
+    assert (Hpq'' : alookup N.eqb (kw_wd kwv) (pfw r'') = Some q).
+    { rewrite <- Evp. apply Pf; try assumption; rewrite Evp; [congruence|]. destruct (under p q) eqn:E; congruence. }
+    assert (Hne_wd : kw_wd kwe <> kw_wd kwv).
+    { intros E. destruct Cep as (Cwe & _). destruct (watch_of_ino_some _ _ _ Cwe) as [Hke Eie].
+      destruct (watch_of_ino_some _ _ _ Cwv) as [Hkv Eiv].
+      assert (kwe = kwv) by (apply (wd_inj k); [apply I| | |]; assumption). subst kwe.
+      assert (ep = v) by (apply (ino_inj w); try assumption; congruence). subst v. congruence. }
+    assert (Hwq'' : alookup beqb q (wfp r'') = Some (kw_wd kwe)).
+    { destruct (F ep kwe Hep Dep) as [F1 _]; [now rewrite Eep | congruence | exact Cep|]. now rewrite Eep, rk_self in F1. }
+    assert (Hpre_inert : Forall (inert_ev r'') pre).
+    { eapply Forall_impl; [|exact Hpre]. intros a (A1 & A2 & A3). split; [now apply self_mask_inert|]. rewrite A1. eauto. }
+    rewrite read_batch_app.
+    destruct (read_batch_inert' t' r'' kf pre Hpre_inert evs0) as (evs1 & -> & HF1).
+    cbn [read_batch]. unfold ign_ev. rewrite (read_one_ignored_other _ _ _ _ _ q (kw_wd kwe) Hpq'' Hwq'' Hne_wd).
+    set (rf := {| wfp := wfp r''; pfw := aremove N.eqb (kw_wd kwv) (pfw r''); mvf := mvf r''; calls := calls r'' |}).
+    eexists _, _, _. split; [reflexivity|]. split.
+    2:{ apply Forall_app. split; [apply Forall_app; split; [exact Hsafe0|]|].
+        - apply (inert_raws_path r'' pre evs1 (kw_wd kwv) q HF1); try assumption.
+          eapply Forall_impl; [|exact Hpre]. intros a (A1 & A2 & _). now split.
+        - constructor; [|constructor]. intros _. cbn [r_path]. now apply beqb_neq. }
+    (* entries *)
+    assert (Hin' : forall e, In e (w_fs w) -> f_path e <> q -> In (ren p q e) t').
+    { intros e He Hn. unfold t'. rewrite frename_map. apply in_map. apply fremove_in. now split. }
+    assert (Hfil : forall x, In x (k_watches kf) <-> In x (k_watches k) /\ kw_wd x <> kw_wd kwv).
+    { intros x. cbn [kf k_watches]. rewrite filter_In, negb_true_iff, N.eqb_neq. tauto. }
+    assert (Hnotv : forall e kw, In e (w_fs w) -> cov k r e kw -> f_path e <> q -> kw_wd kw <> kw_wd kwv).
+    { intros e kw He (Cw & _) Hn E. destruct (watch_of_ino_some _ _ _ Cw) as [Hk Ei].
+      destruct (watch_of_ino_some _ _ _ Cwv) as [Hkv Eiv].
+      assert (kw = kwv) by (apply (wd_inj k); [apply I| | |]; assumption). subst kw.
+      assert (e = v) by (apply (ino_inj w); try assumption; congruence). subst e. congruence. }
+    assert (Urp : under root p = true).
+    { unfold scope in Sp. rewrite Hrec in Sp. destruct Sp as [Sp'|Sp']; [contradiction | exact Sp']. }
+    destruct Hr as (er & Her & Eer & Der).
+    assert (Hren_root : ren p q er = er).
+    { unfold ren. rewrite Eer. destruct (beqb root p) eqn:E; [apply beqb_eq in E; congruence|].
+      now rewrite (under_antisym _ _ Urp). }
+    constructor.
+    - exact W'.
+    - exists er. cbn [w_fs]. split; [|auto]. rewrite <- Hren_root. apply Hin'; [exact Her | congruence].
+    - cbn [w_fs]. constructor; cbn [rf wfp pfw mvf].
+      + intros x Hx. apply Hfil in Hx as [Hx _]. cbn [kf k_next_wd]. now apply (wi_lt _ _ _ I).
+      + apply NoDup_map_filter, I.
+      + apply NoDup_map_filter, I.
+      + intros x Hx. apply Hfil in Hx as [Hx _]. now apply (wi_mask _ _ _ I).
+      + intros kw Hk. apply Hfil in Hk as [Hk Hnw].
+        destruct (wi_exact _ _ _ I kw Hk) as (e & He & De & Se & Ie & Pe & We).
+        assert (Ce : cov k r e kw).
+        { split; [|split]; try assumption. apply watch_of_ino_in; [apply I | assumption | congruence]. }
+        assert (Hnq : f_path e <> q).
+        { intros E. assert (e = v) by (apply (path_inj (w_fs w)); [apply W| | |]; congruence). subst e.
+          destruct Ce as (Cw' & _). assert (kw = kwv) by congruence. congruence. }
+        destruct (F e kw He De Se Hnq Ce) as [F1 F2].
+        exists (ren p q e). rewrite ren_path, ren_dir, ren_ino. repeat split; try assumption.
+        * now apply Hin'.
+        * now apply scope_rk.
+        * now rewrite prem_neq.
+      + intros y wd Hy. destruct (T y wd Hy) as (e & kw & He & De & Se & Hnq & Ce & Ewd & Ey).
+        assert (Hnw := Hnotv e kw He Ce Hnq). destruct (F e kw He De Se Hnq Ce) as [_ F2].
+        destruct Ce as (Cw' & _). destruct (watch_of_ino_some _ _ _ Cw') as [Hk _].
+        split; [exists kw; split; [apply Hfil; now split | exact Ewd]|].
+        rewrite <- Ewd, prem_neq by assumption. now rewrite Ey.
+      + rewrite Hmv. cbn [kf k_next_cookie]. apply mvf_aset_lt; [exact 0%N | apply I].
+    - cbn [w_fs]. intros e' He' De' Se'. unfold t' in He'. rewrite frename_map in He'.
+      apply in_map_iff in He' as (e & <- & He). apply fremove_in in He as [He Hnq].
+      rewrite ren_dir in De'. rewrite ren_path in Se'.
+      assert (Se : scope (f_path e)).
+      { unfold rk in Se'. destruct (beqb (f_path e) p) eqn:E1; [apply beqb_eq in E1; now rewrite E1|].
+        destruct (under p (f_path e)) eqn:E2; [|exact Se']. unfold scope. rewrite Hrec. right.
+        eapply under_trans; eassumption. }
+      destruct (Cv e He De' Se) as (kw & Ce). destruct (F e kw He De' Se Hnq Ce) as [F1 F2].
+      assert (Hnw := Hnotv e kw He Ce Hnq).
+      exists kw. unfold cov. rewrite ren_ino, ren_path. cbn [rf wfp pfw]. split; [|split]; try assumption.
+      * destruct Ce as (Cw' & _). destruct (watch_of_ino_some _ _ _ Cw') as [Hk Ei].
+        apply watch_of_ino_in; [apply NoDup_map_filter, I | apply Hfil; now split | exact Ei].
+      * now rewrite prem_neq.
+    - reflexivity.
+  Qed.
+
+  (* ------------------------------------------------------------------ 2b: a directory moved into the tree from outside *)
+  Lemma ino_unwatched w k r d : wf_fs w -> WInv (w_fs w) k r -> ~ scope d -> watch_of_ino k (ino_of (w_fs w) d) = None.
+  Proof.
+    intros W I Hs. unfold ino_of. destruct (flookup d (w_fs w)) as [e|] eqn:El.
+    - destruct (flookup_some _ _ _ El) as [He Ee]. apply (not_scope_unwatched w k r e W I He). now rewrite Ee.
+    - destruct (watch_of_ino k 0) as [kw|] eqn:Ek; [|reflexivity]. exfalso.
+      apply watch_of_ino_some in Ek as [Hk Ei]. destruct (wi_exact _ _ _ I kw Hk) as (e & He & _ & _ & Ie & _).
+      assert (H0 := wf_fresh w W e He). lia.
+  Qed.
+
+  Lemma scope_under p x : c_recursive C = true -> scope p -> under p x = true -> scope x.
+  Proof.
+    unfold scope. intros -> [->|H] Hu; right; [exact Hu | eapply under_trans; eassumption].
+  Qed.
+
+  (* nothing in scope lies at or below a path that is not in scope and is not an ancestor of the root *)
+  Lemma scope_not_below p x : c_recursive C = true -> ~ scope p -> under p root = false -> scope x ->
+    x <> p /\ under p x = false.
+  Proof.
+    intros Hrec Hp Hpr Hx. split; [intros ->; contradiction|].
+    destruct (under p x) eqn:E; [|reflexivity]. exfalso. unfold scope in *. rewrite Hrec in *.
+    destruct Hx as [->|Hx]; [congruence|].
+    destruct (under_cmp root p x Hx E) as [H|[H|H]]; [apply Hp; now left | apply Hp; now right | congruence].
+  Qed.
+
+  Theorem step_rename_dir_in w k r p q w' ep : RSync w k r -> npath p -> npath q ->
+    c_recursive C = true -> c_fix_movein C = true ->
+    N.land IN_MOVED_FROM (c_mask C) <> 0%N -> N.land IN_MOVED_TO (c_mask C) <> 0%N ->
+    apply_op w (Rename p q) = Some w' ->
+    flookup p (w_fs w) = Some ep -> f_dir ep = true -> ~ scope p -> under p root = false -> scope q ->
+    flookup q (w_fs w) = None ->
+    let k1 := kernel_op k (w_fs w) (Rename p q) in
+    exists r' k' evs, read_batch C (w_fs w') (r, drainq k1, []) (k_queue k1) = Done (r', k', evs) /\ RSync w' k' r'.
+  Proof.
+    intros S Np Nq Hrec Hfix Hmf Hmt Ha Elp Dep Sp Hpr Sq Elq k1. destruct S as [W Hr I Cv Hq].
+    assert (W' : wf_fs w') by exact (wf_apply_op w (Rename p q) w' W (conj Np Nq) Ha).
+    destruct (rename_inv w p q w' W Np Nq Ha) as (ep' & t1 & Elp' & Hne & Hupq & Edq & -> & Hbelow & Hq1).
+    assert (ep' = ep) by congruence. subst ep'.
+    destruct Hq1 as [[_ ->]|(v & Ev & _)]; [|congruence].
+    destruct (flookup_some _ _ _ Elp) as [Hep Eep].
+    destruct Hr as (er & Her & Eer & Der).
+    assert (Hqr : q <> root).
+    { intros E. apply flookup_none in Elq. apply Elq. rewrite E, <- Eer. now apply in_map. }
+    destruct (scope_parent q Nq Sq Hqr) as [Sdq _].
+    destruct (fisdir_in _ _ Edq) as (dq & Hdq & Edq' & Ddq). rewrite <- Edq' in Sdq.
+    destruct (Cv dq Hdq Ddq Sdq) as (kwq & Cwq & Cpq & Cfq).
+    assert (Iq : ino_of (w_fs w) (dirname q) = f_ino dq) by (unfold ino_of; rewrite <- Edq'; now rewrite (flookup_in _ dq (wf_paths w W) Hdq)).
+    assert (Sdp : ~ scope (dirname p)).
+    { intros H. apply Sp. destruct (npath_parts p Np) as (Ep & _). rewrite Ep. now apply scope_child. }
+    assert (Fq : fisdir q (w_fs w) = false) by (unfold fisdir; now rewrite Elq).
+    assert (Fp : fisdir p (w_fs w) = true) by (unfold fisdir; now rewrite Elp).
+    subst k1. cbn [kernel_op w_fs]. rewrite Fq.
+    rewrite rename_kernel; [|exact Hq|].
+    2:{ intros kw Hk. rewrite (wi_mask _ _ _ I kw Hk). now split. }
+    rewrite (ino_unwatched w k r (dirname p) W I Sdp), Iq, Cwq, Fp. cbn [k_queue app].
+    set (c := k_next_cookie k). set (k0 := drainq _). set (t' := frename p q (w_fs w)) in *.
+    destruct (npath_parts q Nq) as (Eq & Gdq & Vbq & Jq).
+    assert (SPq : src_path_of (dirname q) (basename q) = q) by (unfold src_path_of; destruct (basename q); [discriminate Vbq | exact Jq]).
+    assert (Hren : forall e, In e (w_fs w) -> scope (f_path e) -> ren p q e = e).
+    { intros e He Se. destruct (scope_not_below p (f_path e) Hrec Sp Hpr Se) as [E1 E2]. unfold ren.
+      apply beqb_neq in E1. now rewrite E1, E2. }
+    assert (Hin' : forall e, In e (w_fs w) -> In (ren p q e) t') by (intros e He; unfold t'; rewrite frename_map; now apply in_map).
+    assert (I0 : WInv t' k0 r).
+    { apply (WInv_ext' (w_fs w) _ k); try assumption; try reflexivity; [|cbn; lia].
+      intros e He De (kw & Hk & Ei). destruct (wi_exact _ _ _ I kw Hk) as (e' & He' & _ & Se' & Ie' & _).
+      assert (e' = e) by (apply (ino_inj w); try assumption; congruence). subst e'.
+      rewrite <- (Hren e He Se'). now apply Hin'. }
+    assert (Hq' : In (ren p q ep) t' /\ f_path (ren p q ep) = q /\ f_dir (ren p q ep) = true).
+    { split; [now apply Hin'|]. rewrite ren_path, ren_dir, Eep, rk_self. auto. }
+    assert (Fq' : fisdir q t' = true).
+    { apply (in_fisdir q t' (wf_paths _ W')). exists (ren p q ep). apply Hq'. }
+    cbn [read_batch].
+    rewrite (read_one_to_movein _ _ _ _ _ (dirname q)); try (vm_compute; reflexivity).
+    2:{ cbn [mv_to kev k_wd]. now rewrite Cpq, Edq'. }
+    2:{ left. cbn [mv_to kev k_cookie]. destruct (alookup N.eqb c (mvf r)) eqn:E; [|reflexivity].
+        apply (wi_mvf _ _ _ I) in E. unfold c in E. lia. }
+    2:{ cbn [mv_to kev k_mask k_name]. rewrite SPq, Hfix, Hrec, Fq'. reflexivity. }
+    cbn [mv_to kev k_name]. rewrite SPq. cbv zeta.
+    assert (Hps : Forall (dir_in_scope t') (q :: walk_dirs t' q)).
+    { constructor.
+      - exists (ren p q ep). destruct Hq' as (A & B & D). auto.
+      - apply Forall_forall. intros x Hx. apply (walk_dirs_spec _ q W' Fq') in Hx as (e & He & Ee & De & Ue).
+        exists e. repeat split; try assumption. now apply (scope_under q). }
+    destruct (cgo_ok _ W' _ k0 r I0 Hps) as (r2 & k2 & _ & Hd & I2 & (Q2 & N2 & M2 & X2) & Cvps & _).
+    cbn [w_fs] in Hd, I2, X2, Cvps. rewrite Hd.
+    eexists _, _, _. split; [reflexivity|].
+    assert (Hroot : ren p q er = er).
+    { apply Hren; [exact Her|]. rewrite Eer. unfold scope. rewrite Hrec. now left. }
+    constructor; cbn [w_fs]; try assumption.
+    - exists er. split; [rewrite <- Hroot; now apply Hin' | auto].
+    - intros e' He' De' Se'. unfold t' in He'. rewrite frename_map in He'. apply in_map_iff in He' as (e & <- & He).
+      rewrite ren_dir in De'. rewrite ren_path in Se'.
+      destruct (bytes_eq_dec (f_path e) p) as [E|E].
+      + apply Cvps; [now apply Hin'|]. rewrite ren_path, E, rk_self. now left.
+      + destruct (under p (f_path e)) eqn:Eu.
+        * apply Cvps; [now apply Hin'|]. right. apply (walk_dirs_spec _ q W' Fq').
+          exists (ren p q e). split; [now apply Hin'|]. split; [reflexivity|]. split; [now rewrite ren_dir|].
+          rewrite ren_path. apply under_spec in Eu as [s ->]. rewrite rk_under. apply under_app.
+        * rewrite rk_other in Se' by assumption.
+          assert (Hr : ren p q e = e) by (unfold ren; apply beqb_neq in E; now rewrite E, Eu). rewrite Hr.
+          destruct (Cv e He De' Se') as (kw & C1 & C2 & C3). exists kw. apply X2; [rewrite <- Hr; now apply Hin'|].
+          split; [|split]; assumption.
+  Qed.
+
+
+  (* ------------------------------------------------------------------ 2b: directory renames that do not concern the watch state:
+     under a non-recursive watch (only the root is watched), or entirely outside the tree of a recursive watch;
+     the target is absent or an empty directory *)
+  Theorem step_rename_dir_plain w k r p q w' ep : RSync w k r -> npath p -> npath q ->
+    N.land IN_MOVED_FROM (c_mask C) <> 0%N -> N.land IN_MOVED_TO (c_mask C) <> 0%N ->
+    apply_op w (Rename p q) = Some w' -> flookup p (w_fs w) = Some ep -> f_dir ep = true ->
+    p <> root -> q <> root -> under p root = false ->
+    (c_recursive C = false \/ (~ scope p /\ ~ scope q)) ->
+    let k1 := kernel_op k (w_fs w) (Rename p q) in
+    exists r' k' evs, read_batch C (w_fs w') (r, drainq k1, []) (k_queue k1) = Done (r', k', evs) /\ RSync w' k' r' /\
+      wfp r' = wfp r /\ pfw r' = pfw r.
+  Proof.
+    intros S Np Nq Hmf Hmt Ha Elp Dep Hpr Hqr Hupr Hplain k1. assert (S0 := S). destruct S as [W Hr I Cv Hq].
+    assert (W' : wf_fs w') by exact (wf_apply_op w (Rename p q) w' W (conj Np Nq) Ha).
+    destruct (rename_inv w p q w' W Np Nq Ha) as (ep' & t1 & Elp' & Hne & Hupq & Edq & -> & Hbelow & Hq1).
+    assert (ep' = ep) by congruence. subst ep'. destruct (flookup_some _ _ _ Elp) as [Hep Eep].
+    destruct (fisdir_in _ _ Edq) as (dq & Hdq & Edq' & Ddq).
+    assert (Iq : ino_of (w_fs w) (dirname q) = f_ino dq) by (unfold ino_of; rewrite <- Edq'; now rewrite (flookup_in _ dq (wf_paths w W) Hdq)).
+    assert (Fp : fisdir p (w_fs w) = true) by (unfold fisdir; now rewrite Elp).
+    assert (Hrootq : under q root = false).
+    { destruct Hr as (er & Her & Eer & _). rewrite <- Eer. now apply Hbelow. }
+    (* neither p nor q is in scope *)
+    assert (Hsp : ~ scope p /\ ~ scope q).
+    { destruct Hplain as [Hrec|H]; [|exact H]. unfold scope. rewrite Hrec. split; congruence. }
+    destruct Hsp as [Sp Sq].
+    (* directories in scope are not touched by the rename *)
+    assert (Hkeep : forall e, In e (w_fs w) -> scope (f_path e) -> ren p q e = e /\ f_path e <> q).
+    { intros e He Se. split; [|intros E; apply Sq; now rewrite <- E].
+      assert (E1 : f_path e <> p) by (intros E; apply Sp; now rewrite <- E).
+      assert (E2 : under p (f_path e) = false).
+      { destruct (under p (f_path e)) eqn:E; [|reflexivity]. exfalso. unfold scope in Se, Sp.
+        destruct (c_recursive C); [|rewrite Se in E; congruence].
+        destruct Se as [Se|Se]; [rewrite Se in E; congruence|].
+        destruct (under_cmp root p _ Se E) as [H|[H|H]]; [apply Sp; now left | apply Sp; now right | congruence]. }
+      unfold ren. apply beqb_neq in E1. now rewrite E1, E2. }
+    assert (Hsub : forall e, In e t1 -> In e (w_fs w)).
+    { intros e He. destruct Hq1 as [[_ ->]|(v & _ & -> & _)]; [assumption | now apply fremove_in in He]. }
+    assert (Hint1 : forall e, In e (w_fs w) -> f_path e <> q -> In e t1).
+    { intros e He Hn. destruct Hq1 as [[_ ->]|(v & _ & -> & _)]; [assumption | now apply fremove_in]. }
+    assert (Hfs : forall e, f_dir e = true -> scope (f_path e) -> In e (w_fs w) <-> In e (frename p q t1)).
+    { intros e De Se. rewrite frename_map. split.
+      - intros He. destruct (Hkeep e He Se) as [Hr' Hn]. rewrite <- Hr'. apply in_map. now apply Hint1.
+      - intros He. apply in_map_iff in He as (e0 & E0 & He0). assert (He0' := Hsub e0 He0).
+        destruct (bytes_eq_dec (f_path e0) p) as [E|E].
+        + exfalso. apply Sq. rewrite <- E0, ren_path, E, rk_self in Se. exact Se.
+        + destruct (under p (f_path e0)) eqn:Eu.
+          * exfalso. rewrite <- E0, ren_path in Se. apply under_spec in Eu as [s Es]. rewrite Es, rk_under in Se.
+            unfold scope in Se, Sq. destruct (c_recursive C).
+            -- destruct Se as [Se|Se]; [rewrite <- Se, under_app in Hrootq; discriminate|].
+               destruct (under_cmp root q _ Se (under_app q s)) as [H|[H|H]]; [apply Sq; now left | apply Sq; now right | congruence].
+            -- rewrite <- Se, under_app in Hrootq. discriminate.
+          * assert (ren p q e0 = e0) by (unfold ren; apply beqb_neq in E; now rewrite E, Eu). congruence. }
+    (* the kernel: no event for the replaced directory (not watched) *)
+    assert (Uq : watch_of_ino k (ino_of (w_fs w) q) = None) by now apply (ino_unwatched w k r q W I).
+    subst k1. cbn [kernel_op w_fs].
+    set (k2 := knotify (knotify _ _ _ _ _ _) _ _ _ _ _).
+    assert (Ek2 : k2 = {| k_watches := k_watches k; k_next_wd := k_next_wd k;
+              k_queue := match watch_of_ino k (ino_of (w_fs w) (dirname p)) with Some kw => [mv_from kw (fisdir p (w_fs w)) (k_next_cookie k) (basename p)] | None => [] end ++
+                         match watch_of_ino k (ino_of (w_fs w) (dirname q)) with Some kw => [mv_to kw (fisdir p (w_fs w)) (k_next_cookie k) (basename q)] | None => [] end;
+              k_next_cookie := k_next_cookie k + 1 |}).
+    { unfold k2. apply rename_kernel; [exact Hq|]. intros kw Hk. rewrite (wi_mask _ _ _ I kw Hk). now split. }
+    assert (Ekg : (if fisdir q (w_fs w) then kgone k2 (ino_of (w_fs w) q) true else k2) = k2).
+    { destruct (fisdir q (w_fs w)); [|reflexivity]. unfold kgone. rewrite (watch_of_ino_ext k k2) by (rewrite Ek2; reflexivity).
+      now rewrite Uq. }
+    rewrite Ekg, Ek2, Iq, Fp. cbn [k_queue].
+    set (c := k_next_cookie k). set (k0 := drainq _).
+    destruct (npath_parts p Np) as (Ep & Gdp & Vbp & Jp). destruct (npath_parts q Nq) as (Eq & Gdq & Vbq & Jq).
+    assert (SPp : src_path_of (dirname p) (basename p) = p) by (unfold src_path_of; destruct (basename p); [discriminate Vbp | exact Jp]).
+    assert (SPq : src_path_of (dirname q) (basename q) = q) by (unfold src_path_of; destruct (basename q); [discriminate Vbq | exact Jq]).
+    set (r1 := {| wfp := wfp r; pfw := pfw r; mvf := aset N.eqb c p (mvf r); calls := calls r |}).
+    assert (Hwp : alookup beqb p (wfp r) = None).
+    { destruct (alookup beqb p (wfp r)) as [wd|] eqn:E; [|reflexivity]. exfalso.
+      destruct (tight_entry w k r p wd I E) as (e & _ & He & De & Se & Ee & _). apply Sp. now rewrite <- Ee. }
+    rewrite read_batch_app.
+    assert (Hfrom : exists ra evs1,
+      read_batch C (frename p q t1) (r, k0, [])
+        match watch_of_ino k (ino_of (w_fs w) (dirname p)) with Some kw => [mv_from kw true c (basename p)] | None => [] end = Done (ra, k0, evs1) /\
+      (ra = r \/ ra = r1) /\
+      (alookup N.eqb c (mvf ra) = None \/ exists msrc, alookup N.eqb c (mvf ra) = Some msrc /\ alookup beqb msrc (wfp ra) = None)).
+    { destruct (watch_of_ino k (ino_of (w_fs w) (dirname p))) as [kwp|] eqn:Ewp.
+      - destruct (watch_pfw (w_fs w) k r _ kwp I Ewp) as [wp Pp].
+        (* the watched parent is an entry whose path is dirname p *)
+        assert (Ewp' : wp = dirname p).
+        { unfold ino_of in Ewp. destruct (flookup (dirname p) (w_fs w)) as [dp|] eqn:Edp.
+          - destruct (flookup_some _ _ _ Edp) as [Hdp Edp']. destruct (watched_entry w k r dp kwp W I Hdp Ewp) as (_ & _ & (_ & Pp' & _) & _).
+            congruence.
+          - exfalso. apply watch_of_ino_some in Ewp as [Hk Ei]. destruct (wi_exact _ _ _ I kwp Hk) as (e & He & _ & _ & Ie & _).
+            assert (H0 := wf_fresh w W e He). lia. }
+        subst wp. cbn [read_batch]. rewrite (read_one_from _ _ _ _ _ (dirname p)); try (vm_compute; reflexivity); [|exact Pp].
+        cbn [mv_from kev k_cookie k_name]. rewrite SPp. fold r1. eexists r1, _. split; [reflexivity|]. split; [now right|].
+        right. exists p. cbn [r1 mvf wfp]. split; [apply pset_eq | exact Hwp].
+      - exists r, []. split; [reflexivity|]. split; [now left|]. left.
+        destruct (alookup N.eqb c (mvf r)) eqn:E; [|reflexivity]. apply (wi_mvf _ _ _ I) in E. unfold c in E. lia. }
+    destruct Hfrom as (ra & evs1 & -> & Hra & Hlk).
+    assert (Hra_w : wfp ra = wfp r /\ pfw ra = pfw r) by (destruct Hra as [->| ->]; now split).
+    assert (Hto : exists evs2,
+      read_batch C (frename p q t1) (ra, k0, evs1)
+        match watch_of_ino k (f_ino dq) with Some kw => [mv_to kw true c (basename q)] | None => [] end = Done (ra, k0, evs2)).
+    { destruct (watch_of_ino k (f_ino dq)) as [kwq|] eqn:Ewq.
+      - destruct (watched_entry w k r dq kwq W I Hdq Ewq) as (Sdq & _ & (_ & Pq & _) & _).
+        cbn [read_batch]. rewrite (read_one_to_plain _ _ _ _ _ (dirname q)); try (vm_compute; reflexivity).
+        + eexists. reflexivity.
+        + cbn [mv_to kev k_wd]. destruct Hra_w as [_ ->]. now rewrite Pq, Edq'.
+        + exact Hlk.
+        + destruct (c_recursive C) eqn:Hrec; [|now rewrite andb_false_r].
+          exfalso. apply Sq. rewrite Eq. apply scope_child; [now rewrite <- Edq' | exact Hrec].
+      - exists evs1. reflexivity. }
+    destruct Hto as (evs2 & ->). eexists _, _, _. split; [reflexivity|]. destruct Hra_w as [Hw1 Hw2].
+    split; [|now split].
+    apply (RSync_same' w _ k k0 r ra W' S0 Hfs); try reflexivity; try assumption.
+    cbn [k0 drainq kset_queue k_next_cookie]. destruct Hra as [->| ->].
+    - intros c' x Hx. apply (wi_mvf _ _ _ I) in Hx. fold c in Hx. lia.
+    - cbn [r1 mvf]. apply mvf_aset_lt; [exact 0%N | apply I].
+  Qed.
+
+  (* ------------------------------------------------------------------ 2b: a directory moved out of the tree.
+     Everything under the root is still covered; the kernel watches of the departed directories and their entries
+     in both maps stay behind (finding F10), so WInv - no stale watch - does not hold afterwards. *)
+  Theorem step_rename_dir_out w k r p q w' ep : RSync w k r -> npath p -> npath q -> c_recursive C = true ->
+    N.land IN_MOVED_FROM (c_mask C) <> 0%N -> N.land IN_MOVED_TO (c_mask C) <> 0%N ->
+    apply_op w (Rename p q) = Some w' -> flookup p (w_fs w) = Some ep -> f_dir ep = true ->
+    scope p -> p <> root -> ~ scope q ->
+    let k1 := kernel_op k (w_fs w) (Rename p q) in
+    exists r' k' evs, read_batch C (w_fs w') (r, drainq k1, []) (k_queue k1) = Done (r', k', evs) /\
+      wf_fs w' /\ isdir_in root (w_fs w') /\ Cover (w_fs w') k' r' /\ k_queue k' = [] /\
+      wfp r' = wfp r /\ pfw r' = pfw r /\ k_watches k' = k_watches k.
+  Proof.
+    intros S Np Nq Hrec Hmf Hmt Ha Elp Dep Sp Hpr Sq k1. destruct S as [W Hr I Cv Hq].
+    assert (W' : wf_fs w') by exact (wf_apply_op w (Rename p q) w' W (conj Np Nq) Ha).
+    destruct (rename_inv w p q w' W Np Nq Ha) as (ep' & t1 & Elp' & Hne & Hupq & Edq & -> & Hbelow & Hq1).
+    assert (ep' = ep) by congruence. subst ep'. destruct (flookup_some _ _ _ Elp) as [Hep Eep].
+    destruct Hr as (er & Her & Eer & Der).
+    assert (Hrootq : under q root = false) by (rewrite <- Eer; now apply Hbelow).
+    assert (Urp : under root p = true).
+    { unfold scope in Sp. rewrite Hrec in Sp. destruct Sp as [Sp'|Sp']; [contradiction | exact Sp']. }
+    assert (Hqr : q <> root) by (intros E; apply Sq; unfold scope; rewrite Hrec; now left).
+    assert (Fp : fisdir p (w_fs w) = true) by (unfold fisdir; now rewrite Elp).
+    destruct (scope_parent p Np Sp Hpr) as [Sdp _].
+    assert (Hdp : isdir_in (dirname p) (w_fs w)).
+    { rewrite <- Eep. apply (wf_parent w W ep er Hep Her). now rewrite Eep, Eer. }
+    destruct Hdp as (dp & Hdp & Edp & Ddp). rewrite <- Edp in Sdp.
+    destruct (Cv dp Hdp Ddp Sdp) as (kwp & Cwp & Cpp & Cfp).
+    assert (Ip : ino_of (w_fs w) (dirname p) = f_ino dp) by (unfold ino_of; rewrite <- Edp; now rewrite (flookup_in _ dp (wf_paths w W) Hdp)).
+    assert (Sdq : ~ scope (dirname q)).
+    { intros H. apply Sq. destruct (npath_parts q Nq) as (Eq & _). rewrite Eq. now apply scope_child. }
+    assert (Uq : watch_of_ino k (ino_of (w_fs w) q) = None) by now apply (ino_unwatched w k r q W I).
+    subst k1. cbn [kernel_op w_fs].
+    set (k2 := knotify (knotify _ _ _ _ _ _) _ _ _ _ _).
+    assert (Ek2 : k2 = {| k_watches := k_watches k; k_next_wd := k_next_wd k;
+              k_queue := [mv_from kwp true (k_next_cookie k) (basename p)]; k_next_cookie := k_next_cookie k + 1 |}).
+    { unfold k2. rewrite rename_kernel; [|exact Hq|].
+      - now rewrite Ip, Cwp, (ino_unwatched w k r (dirname q) W I Sdq), Fp.
+      - intros kw Hk. rewrite (wi_mask _ _ _ I kw Hk). now split. }
+    assert (Ekg : (if fisdir q (w_fs w) then kgone k2 (ino_of (w_fs w) q) true else k2) = k2).
+    { destruct (fisdir q (w_fs w)); [|reflexivity]. unfold kgone. rewrite (watch_of_ino_ext k k2) by (rewrite Ek2; reflexivity).
+      now rewrite Uq. }
+    rewrite Ekg, Ek2. cbn [k_queue read_batch].
+    destruct (npath_parts p Np) as (Ep & Gdp & Vbp & Jp).
+    assert (SPp : src_path_of (dirname p) (basename p) = p) by (unfold src_path_of; destruct (basename p); [discriminate Vbp | exact Jp]).
+    rewrite (read_one_from _ _ _ _ _ (dirname p)); try (vm_compute; reflexivity); [|cbn [mv_from kev k_wd]; now rewrite Cpp, Edp].
+    eexists _, _, _. split; [reflexivity|]. cbn [wfp pfw drainq kset_queue k_queue k_watches w_fs].
+    split; [exact W'|].
+    assert (Hkeep_root : ren p q er = er).
+    { unfold ren. rewrite Eer. destruct (beqb root p) eqn:E; [apply beqb_eq in E; congruence|]. now rewrite (under_antisym _ _ Urp). }
+    assert (Hsub : forall e, In e t1 -> In e (w_fs w)).
+    { intros e He. destruct Hq1 as [[_ ->]|(v & _ & -> & _)]; [assumption | now apply fremove_in in He]. }
+    split; [|split; [|repeat split; reflexivity]].
+    - exists er. split; [|auto]. rewrite frename_map, <- Hkeep_root. apply in_map.
+      destruct Hq1 as [[_ ->]|(v & _ & -> & _)]; [assumption | apply fremove_in; split; [assumption | congruence]].
+    - intros e' He' De' Se'. rewrite frename_map in He'. apply in_map_iff in He' as (e & <- & He0). assert (He := Hsub e He0).
+      rewrite ren_dir in De'. rewrite ren_path in Se'.
+      assert (Hnot : forall s, ~ scope (q ++ sep :: s)).
+      { intros s H. unfold scope in H, Sq. rewrite Hrec in *. destruct H as [H|H]; [rewrite <- H, under_app in Hrootq; discriminate|].
+        destruct (under_cmp root q _ H (under_app q s)) as [E|[E|E]]; [apply Sq; now left | apply Sq; now right | congruence]. }
+      destruct (bytes_eq_dec (f_path e) p) as [E|E]; [rewrite E, rk_self in Se'; contradiction|].
+      destruct (under p (f_path e)) eqn:Eu.
+      { apply under_spec in Eu as [s Es]. rewrite Es, rk_under in Se'. now apply Hnot in Se'. }
+      rewrite rk_other in Se' by assumption.
+      assert (Hr' : ren p q e = e) by (unfold ren; apply beqb_neq in E; now rewrite E, Eu). rewrite Hr'.
+      destruct (Cv e He De' Se') as (kw & C1 & C2 & C3). exists kw. split; [|split]; assumption.
+  Qed.
+
   (* ------------------------------------------------------------------ 2b/2c: one step, and sequential histories *)
   Definition mask_ok : Prop :=
     N.land IN_CREATE (c_mask C) <> 0%N /\ N.land IN_MOVED_FROM (c_mask C) <> 0%N /\ N.land IN_MOVED_TO (c_mask C) <> 0%N.
@@ -2006,18 +2721,66 @@ Section Cover.
   | co_rename_file p q ep : npath p -> npath q -> flookup p (w_fs w) = Some ep -> f_dir ep = false ->
       fisdir (dirname p) (w_fs w) = true -> covered_op w (Rename p q)              (* inside, in, out, replacing a file *)
   | co_rename_dir p q ep : npath p -> npath q -> c_recursive C = true -> flookup p (w_fs w) = Some ep -> f_dir ep = true ->
-      scope p -> p <> root -> scope q -> flookup q (w_fs w) = None -> covered_op w (Rename p q).   (* directory, inside the tree *)
+      scope p -> p <> root -> scope q -> flookup q (w_fs w) = None -> covered_op w (Rename p q)    (* directory, inside the tree *)
+  | co_rename_dir_in p q ep : npath p -> npath q -> c_recursive C = true -> c_fix_movein C = true ->
+      flookup p (w_fs w) = Some ep -> f_dir ep = true -> ~ scope p -> under p root = false -> scope q ->
+      flookup q (w_fs w) = None -> covered_op w (Rename p q)                      (* directory, moved in from outside *)
+  | co_rename_dir_over p q ep v : npath p -> npath q -> c_recursive C = true -> flookup p (w_fs w) = Some ep -> f_dir ep = true ->
+      scope p -> p <> root -> scope q -> q <> root -> flookup q (w_fs w) = Some v -> f_dir v = true ->
+      covered_op w (Rename p q)                            (* directory of the tree over an empty directory of the tree *)
+  | co_rename_dir_plain p q ep : npath p -> npath q -> flookup p (w_fs w) = Some ep -> f_dir ep = true ->
+      p <> root -> q <> root -> under p root = false -> (c_recursive C = false \/ (~ scope p /\ ~ scope q)) ->
+      covered_op w (Rename p q).              (* directory, non-recursive watch or entirely outside the tree *)
+
+  Lemma safe_generic w k r o w' r' k' evs : k_queue k = [] ->
+    match o with
+    | Rmdir p => watch_of_ino k (ino_of (w_fs w) p) = None
+    | Rename p q => fisdir q (w_fs w) = false \/ watch_of_ino k (ino_of (w_fs w) q) = None
+    | _ => True
+    end ->
+    read_batch C (w_fs w') (r, drainq (kernel_op k (w_fs w) o), []) (k_queue (kernel_op k (w_fs w) o)) = Done (r', k', evs) ->
+    Forall rsafe evs.
+  Proof.
+    intros Hq Hno H. eapply read_batch_good; [|constructor|exact H]. apply kernel_good; [rewrite Hq; constructor | exact Hno].
+  Qed.
+
+  Theorem cover_step_safe w k r o w' : mask_ok -> RSync w k r -> covered_op w o -> apply_op w o = Some w' ->
+    let k1 := kernel_op k (w_fs w) o in
+    exists r' k' evs, read_batch C (w_fs w') (r, drainq k1, []) (k_queue k1) = Done (r', k', evs) /\ RSync w' k' r' /\
+      Forall rsafe evs.
+  Proof.
+    intros (M1 & M2 & M3) S Ho Ha k1. assert (Hq := rs_queue _ _ _ S). assert (W := rs_wf _ _ _ S).
+    destruct Ho as [o Hqo Hn|p Hn|p Hn Hr|p q ep Np Nq El De Ed|p q ep Np Nq Hrec El De Sp Hpr Sq Elq
+                    |p q ep Np Nq Hrec Hfix El De Sp Hpr Sq Elq|p q ep v Np Nq Hrec El De Sp Hpr Sq Hqr Elq Dv
+                    |p q ep Np Nq El De Hpr Hqr Hupr Hpl].
+    - destruct (step_quiet w k r o w' S Hn Hqo Ha) as (evs & H1 & _ & H2). eexists _, _, _. split; [exact H1|]. split; [exact H2|].
+      eapply (safe_generic w k r o w' _ _ _ Hq); [|exact H1]. destruct o; try contradiction; exact I.
+    - destruct (step_mkdir w k r p w' S Hn Ha M1) as (r' & k' & evs & H1 & H2 & _). eexists _, _, _. split; [exact H1|]. split; [exact H2|].
+      eapply (safe_generic w k r (Mkdir p) w' _ _ _ Hq); [exact I | exact H1].
+    - apply step_rmdir; assumption.
+    - destruct (step_rename_file w k r p q w' ep S Np Nq M2 M3 Ha El De Ed) as (r' & k' & evs & H1 & H2 & _).
+      eexists _, _, _. split; [exact H1|]. split; [exact H2|]. eapply (safe_generic w k r (Rename p q) w' _ _ _ Hq); [|exact H1].
+      left. destruct (rename_inv w p q w' W Np Nq Ha) as (ep' & t1 & Elp & _ & _ & _ & _ & _ & Hq1).
+      assert (ep' = ep) by congruence. subst ep'. unfold fisdir.
+      destruct Hq1 as [[-> _]|(v & -> & _ & [[_ Hv]|(Hd & _)])]; [reflexivity | exact Hv | congruence].
+    - destruct (step_rename_dir_inside w k r p q w' ep S Np Nq Hrec M2 M3 Ha El De Sp Hpr Sq Elq) as (r' & k' & evs & H1 & H2).
+      eexists _, _, _. split; [exact H1|]. split; [exact H2|]. eapply (safe_generic w k r (Rename p q) w' _ _ _ Hq); [|exact H1].
+      left. unfold fisdir. now rewrite Elq.
+    - destruct (step_rename_dir_in w k r p q w' ep S Np Nq Hrec Hfix M2 M3 Ha El De Sp Hpr Sq Elq) as (r' & k' & evs & H1 & H2).
+      eexists _, _, _. split; [exact H1|]. split; [exact H2|]. eapply (safe_generic w k r (Rename p q) w' _ _ _ Hq); [|exact H1].
+      left. unfold fisdir. now rewrite Elq.
+    - eapply step_rename_dir_over; eassumption.
+    - destruct (step_rename_dir_plain w k r p q w' ep S Np Nq M2 M3 Ha El De Hpr Hqr Hupr Hpl) as (r' & k' & evs & H1 & H2 & _).
+      eexists _, _, _. split; [exact H1|]. split; [exact H2|]. eapply (safe_generic w k r (Rename p q) w' _ _ _ Hq); [|exact H1].
+      right. apply (ino_unwatched w k r q W (rs_inv _ _ _ S)).
+      destruct Hpl as [Hrec|[_ Hs]]; [|exact Hs]. unfold scope. now rewrite Hrec.
+  Qed.
 
   Theorem cover_step w k r o w' : mask_ok -> RSync w k r -> covered_op w o -> apply_op w o = Some w' ->
     let k1 := kernel_op k (w_fs w) o in
     exists r' k' evs, read_batch C (w_fs w') (r, drainq k1, []) (k_queue k1) = Done (r', k', evs) /\ RSync w' k' r'.
   Proof.
-    intros (M1 & M2 & M3) S Ho Ha k1. destruct Ho as [o Hq Hn|p Hn|p Hn Hr|p q ep Np Nq El De Ed|p q ep Np Nq Hrec El De Sp Hpr Sq Elq].
-    - destruct (step_quiet w k r o w' S Hn Hq Ha) as (evs & H1 & _ & H2). eauto.
-    - destruct (step_mkdir w k r p w' S Hn Ha M1) as (r' & k' & evs & H1 & H2 & _). eauto.
-    - apply step_rmdir; assumption.
-    - destruct (step_rename_file w k r p q w' ep S Np Nq M2 M3 Ha El De Ed) as (r' & k' & evs & H1 & H2 & _). eauto.
-    - eapply step_rename_dir_inside; eassumption.
+    intros M S Ho Ha k1. destruct (cover_step_safe w k r o w' M S Ho Ha) as (r' & k' & evs & H1 & H2 & _). eauto.
   Qed.
 
   (* op; read-all; op; read-all; ...   (None = the reader crashed) *)
@@ -2062,7 +2825,7 @@ Section Cover.
     intros M W Hroot Hc. destruct (construct_cover w W Hroot) as (r0 & k0 & Hcons & I & Cv & Hq & _).
     assert (S : RSync w k0 r0) by (constructor; try assumption; now apply fisdir_in).
     destruct (cover_sequential ops M w k0 r0 S Hc) as (w' & k' & r' & Hrun & S').
-    exists r0, k0, w', k', r'. repeat split; try assumption; apply S'.
+    exists r0, k0, w', k', r'. split; [assumption|]. split; [assumption|]. split; apply S'.
   Qed.
 End Cover.
 
@@ -2169,7 +2932,7 @@ Proof.
   assert (NO : npath pO) by (apply (npath_sub [47;115]%N 79 GS); reflexivity).
   assert (ND : npath (sub pO 100)) by (apply npath_sub; [now apply npath_gpath | reflexivity]).
   assert (NE : npath (sub (sub pO 100) 101)) by (apply npath_sub; [now apply npath_gpath | reflexivity]).
-  constructor; cbn [w0 w_fs w_next_ino map f_path f_ino].
+  constructor; cbn [w0 w_fs w_next_ino map f_path f_ino]; [| | | | |lia].
   - repeat constructor; cbn; intuition discriminate.
   - repeat constructor; cbn; intuition discriminate.
   - intros e [<-|[<-|[<-|[<-|[]]]]]; cbn; lia.
